@@ -40,13 +40,17 @@ PROPS = {
                         "slice lengths <= usize::MAX/64 - 8 words (allocation limit)"],
     },
     "C31": {
-        "level": "proof",
-        "explanation": "Kani/CBMC executes the real words_to_bytes / bytes_to_words / bytes_to_words_vec / try_bytes_to_words "
-                       "(through bytemuck::cast_slice, whose body is in the verified cone) on symbolic byte buffers sliced at a symbolic "
-                       "offset 0..8 of an 8-aligned buffer object, so the harness quantifies over every "
-                       "alignment, every length and every content; panics are failed checks. The harness arrays are short (<= 4 words) "
-                       "because the casts are length-generic. 'Rebuilt indexes answer identically' follows because JsonIndex::from_parts / "
+        "level": "model_checking",
+        "explanation": "BOUNDED, not proved: the four conversion functions are one-line wrappers over bytemuck pointer casts and an iterator "
+                       "chain (chunks_exact / map / collect); neither Verus (no raw-pointer casts, no iterator adapters) nor a Kani function "
+                       "contract (the result length is unbounded) can state them for every length. What is decided: Kani/CBMC executes the real "
+                       "words_to_bytes / bytes_to_words / bytes_to_words_vec / try_bytes_to_words (through bytemuck::cast_slice, whose body is in "
+                       "the cone) on symbolic byte buffers sliced at a symbolic offset 0..8 of an 8-aligned buffer object, so each harness covers "
+                       "every alignment and every content for every length up to its stated bound (<= 4 words); panics are failed checks. The "
+                       "casts contain no length-dependent loop, which is why short buffers are representative, but that is an argument, not a "
+                       "discharged obligation. 'Rebuilt indexes answer identically' follows because JsonIndex::from_parts / "
                        "BalancedParens::from_words depend only on the word contents (contracts of C04/C07).",
+        "technique": "bounded stand-in of the contract family (Kani/CBMC harnesses over all inputs within a stated length bound); no unbounded contract within reach, see explanation",
         "trusted_base": COMMON_TRUST + ["CBMC's pointer model: the byte buffer object is at least 8-aligned, so slice offsets 0..8 enumerate all alignments (checked by the aligned/misaligned harness pair)"],
         "assumptions": ["word-vector length <= 4 in the harness arrays (alignment and length arithmetic: all cases)"],
     },
